@@ -55,11 +55,17 @@ type reader struct {
 	closed   int
 	closeErr bool
 	r        *strings.Reader
+	// deadAtClose: the context the member was given had been cancelled before Close was called on
+	// the reader (a member that needs its context to wind the read down would fail)
+	deadAtClose bool
 }
 
 func (r *reader) Read(p []byte) (int, error) { return r.r.Read(p) }
 func (r *reader) Close() error {
 	r.closed++
+	if r.closed == 1 && r.ctx.Err() != nil {
+		r.deadAtClose = true // the member's context was already cancelled when its reader was being closed
+	}
 	if r.closeErr {
 		return errClose
 	}
@@ -239,6 +245,13 @@ func run(s Script, v *vt.V) {
 					fail("context-dead-early", "the context given to the chosen member %d is already cancelled while the returned reader is open", out.member)
 				}
 				err := out.rd.Close()
+				if out.member >= 0 && !cancelled {
+					for _, mr := range ms[out.member].readers {
+						if mr.deadAtClose {
+							fail("context-dead-early", "the context given to the chosen member %d had already been cancelled when the member's reader was being closed (it stays live until the reader is closed)", out.member)
+						}
+					}
+				}
 				if s.CloseErr && err == nil {
 					fail("close-error-lost", "the reader's Close error was swallowed")
 				}
